@@ -1703,6 +1703,8 @@ func (pc *PartitionContext) moveTerminatedApp(appID string) {
 			zap.String("appID", appID))
 		return
 	}
+	// the asks of a terminated application are gone: a reservation left behind would keep its node reserved for good
+	pc.decReservationCount(app.RemoveReservations())
 	app.UnSetQueue()
 	// new ID as completedApplications map key, use negative value to get a divider
 	newID := appID + strconv.FormatInt(-(time.Now()).Unix(), 10)
